@@ -158,7 +158,7 @@ func (o *apiStreamObfuscator) filterBodyExclusions(exclusionPrefix string) []str
 	var bodyExclusions []string
 	for _, exclusion := range o.obfuscateExclusions {
 		if strings.HasPrefix(exclusion, exclusionPrefix) {
-			bodyExclusions = append(bodyExclusions, exclusion)
+			bodyExclusions = append(bodyExclusions, strings.TrimPrefix(exclusion, exclusionPrefix))
 		}
 	}
 	return bodyExclusions
